@@ -21,10 +21,12 @@ func spec_csWF(s *ImmuStore) bool {
 }
 
 // spec_csInv: the ordering part of the lock invariant of commitStateRWMutex (DESIGN Appendix D): the committed id never
-// exceeds the precommitted id, and an external allowance never lies below the committed id.
+// exceeds the precommitted id, and an external allowance lies between the committed and the precommitted id (the upper
+// bound holds since DiscardPrecommittedTxsSince voids the allowance of discarded transactions). Every function that
+// requires it and writes the commit state also ensures it (`ensures inv`).
 func spec_csInv(s *ImmuStore) bool {
 	return s.committedTxID <= s.inmemPrecommittedTxID &&
-		(!s.useExternalCommitAllowance || s.committedTxID <= s.commitAllowedUpToTxID)
+		(!s.useExternalCommitAllowance || (s.committedTxID <= s.commitAllowedUpToTxID && s.commitAllowedUpToTxID <= s.inmemPrecommittedTxID))
 }
 
 // spec_csCnt: the ring buffer holds exactly the precommitted-but-not-committed transactions.
@@ -61,6 +63,7 @@ func spec_csCnt(s *ImmuStore) bool {
 //@   requires wf: spec_csWF(s)
 //@   requires elems: forall(k, 0, len(s.cLogBuf.buf), s.cLogBuf.buf[k] != nil)
 //@   requires inv: spec_csInv(s)
+//@   ensures inv: spec_csInv(s)
 //@   ensures mono: s.committedTxID >= old(s.committedTxID)
 //@   ensures ok_id: r0 == nil ==> s.committedTxID == old(spec_allowed(s))
 //@   ensures ok_same: r0 == nil && old(spec_allowed(s)) == old(s.committedTxID) ==> s.committedAlh == old(s.committedAlh)
@@ -112,6 +115,7 @@ func spec_csCnt(s *ImmuStore) bool {
 //@   requires wf: spec_csWF(s)
 //@   requires elems: forall(k, 0, len(s.cLogBuf.buf), s.cLogBuf.buf[k] != nil)
 //@   requires inv: spec_csInv(s)
+//@   ensures inv: spec_csInv(s)
 //@   ensures noext: !old(s.useExternalCommitAllowance) ==> r0 != nil
 //@   ensures noext_keep: !old(s.useExternalCommitAllowance) ==> s.commitAllowedUpToTxID == old(s.commitAllowedUpToTxID)
 //@   ensures mono_allow: s.commitAllowedUpToTxID >= old(s.commitAllowedUpToTxID)
@@ -128,26 +132,28 @@ func spec_csCnt(s *ImmuStore) bool {
 
 // DiscardPrecommittedTxsSince (C02): committed ids are never discarded; the committed fields are unchanged in every
 // outcome; the precommitted id only moves down, never below the committed id. `allow_cap` is the C07 clause "the
-// allowance never exceeds the precommitted id" as a two-state fact (property-derived; the code does not clamp the
-// allowance when it lowers inmemPrecommittedTxID).
+// allowance never exceeds the precommitted id" as a two-state fact (property-derived; the original code did not clamp the
+// allowance when it lowered inmemPrecommittedTxID: genuine defect, repaired by a fix: commit; the deferred closure clamps it).
 //@ func (*ImmuStore).DiscardPrecommittedTxsSince
 //@   divmod abstract
 //@   requires wf: spec_csWF(s)
 //@   requires logger: s.logger != nil
 //@   requires elems: forall(k, 0, len(s.cLogBuf.buf), s.cLogBuf.buf[k] != nil)
 //@   requires inv: spec_csInv(s)
+//@   ensures inv: spec_csInv(s)
 //@   ensures refuse: txID <= old(s.committedTxID) ==> r1 != nil
 //@   ensures keep_cid: s.committedTxID == old(s.committedTxID)
 //@   ensures keep_calh: s.committedAlh == old(s.committedAlh)
 //@   ensures lower: s.inmemPrecommittedTxID <= old(s.inmemPrecommittedTxID)
 //@   ensures floor: s.committedTxID <= s.inmemPrecommittedTxID
-//@   ensures keep_allow: s.commitAllowedUpToTxID == old(s.commitAllowedUpToTxID)
+//@   ensures allow_keep_or_clamp: s.commitAllowedUpToTxID == old(s.commitAllowedUpToTxID) || s.commitAllowedUpToTxID == s.inmemPrecommittedTxID
+//@   ensures allow_le: s.commitAllowedUpToTxID <= old(s.commitAllowedUpToTxID)
 //@   ensures allow_cap: old(s.useExternalCommitAllowance) && old(s.commitAllowedUpToTxID) <= old(s.inmemPrecommittedTxID) ==> s.commitAllowedUpToTxID <= s.inmemPrecommittedTxID
 //@   assigns internal, s, s.cLogBuf
 
 //@ func (*ImmuStore).DiscardPrecommittedTxsSince$1
 //@   requires hub: s.durablePrecommitWHub != nil
-//@   assigns nothing
+//@   inline
 
 // PrecommittedAlh: the durable-precommit frontier as reported by the (unmodelled) watchers hub selects which guarded
 // pair is returned (`durablePrecommittedTxID` is the local holding the hub's answer).
